@@ -341,6 +341,21 @@ def judgeMulti (st : JState) (caseLine : String) (ctoks : List String) (obsS : S
         (st, (bad.map fun (i, (a, b)) => mkFail "C02" true "result changed after appending a byte" caseLine s!"prefix {i}: [{a.textFor k}] then [{b.textFor k}]") ++
              (badM.map fun (i, o) => mkFail "C02" false "prefix result differs from model" caseLine s!"prefix {i}: real [{o.textFor k}] model [{(modelObs k cfg cap (buf.take i)).textFor k}]"))
       | _, _, _, _ => (st.bump "badline", [s!"BADLINE {caseLine}"])
+  | "capsweep" :: kind :: cfgS :: _ :: hex :: _ =>
+    match kindOfString kind, cfgS.toNat?, unhex? hex with
+    | some k, some _, some _ =>
+      match parts.mapM (parseObs k) with
+      | some os =>
+        match os.getLast? with
+        | none => (st, [])
+        | some big =>
+          let bad := (List.zip (List.range os.length) os).filter fun (cap, o) => !chkC17cap cap o big
+          let st := ((st.bump "cases.capsweep").bump "nontrivial.capsweep").bump "pairs.capsweep" os.length
+          let st := if big.stored > 0 then st.bump "capsweep.with_headers" else st
+          let st := st.sample s!"capsweep.{kind}.{big.st.tag}" caseLine
+          (st, bad.map fun (cap, o) => mkFail "C17" true s!"capacity law: outcome with capacity {cap} is neither the outcome with a larger capacity nor TooManyHeaders after exactly {cap} headers" caseLine s!"cap {cap}: [{o.textFor k}] largest: [{big.textFor k}]")
+      | none => (st.bump "badline", [s!"BADLINE {caseLine}"])
+    | _, _, _ => (st.bump "badline", [s!"BADLINE {caseLine}"])
   | "cfgpair" :: kind :: ca :: cb :: capS :: hex :: _ =>
     match kindOfString kind, ca.toNat?, cb.toNat?, capS.toNat?, unhex? hex with
     | some k, some ca, some cb, some cap, some buf =>
@@ -554,6 +569,7 @@ def judgeLine (st : JState) (l : String) : JState × List String :=
         else []))
     | "split" :: _ => judgeMulti st caseLine ctoks obsS
     | "cfgpair" :: _ => judgeMulti st caseLine ctoks obsS
+    | "capsweep" :: _ => judgeMulti st caseLine ctoks obsS
     | "hrel" :: _ => judgeMulti st caseLine ctoks obsS
     | "reqall" :: _ => judgeMulti st caseLine ctoks obsS
     | "respall" :: _ => judgeMulti st caseLine ctoks obsS
